@@ -143,7 +143,10 @@ def run(case, ctx, d):
         predicted = []
     _write_inputs(case, d, frames)
     rc, out = ctx.sh(["csg_density", "--top", "top.xml", "--trj", "traj.gro", "--axis", case["axis"], "--step", case["step"],
-                      "--out", "dens.out", "--type", case["type"], "--scale", repr(case["scale"])], cwd=d, timeout=120)
+                      "--out", "dens.out", "--type", case["type"], "--scale", repr(case["scale"])], cwd=d, timeout=900)
+    if rc == -999:  # wall-clock timeout of the tool on an overloaded machine: inconclusive, never a verdict
+        r.discard = True
+        return r
     r.cls("axis:" + case["axis"])
     r.cls("nbin=1" if nbin == 1 else ("nbin<=4" if nbin <= 4 else "nbin>4"))
     if pyx.sanitizer_report(out) or rc != 0:
